@@ -9,6 +9,7 @@ code -> spec: TLC (TraceC01.tla / Soundness.tla) judges Sound: every observed va
 by the declared type (Admits of PytdTypes.tla, soundness reading, the program's own hierarchy).
 """
 import argparse
+import hashlib
 import json
 import os
 import sys
@@ -52,6 +53,7 @@ def infer_nocache(src):
 
 
 KNOWN_CACHE = "C01:call-cache-return-invisible-in-sibling-branch"
+NSLICES = 20
 
 
 def build_case(run_rec, inf):
@@ -106,16 +108,23 @@ def main():
     with open(a.replay) as f:
       progs = [json.load(f)["case"]["program"]]
   else:
-    plan = [(8, 2, 2500 if thorough else 260), (14, 2, 2500 if thorough else 200),
-            (10, 3, 2000 if thorough else 140)]
-    for j, (ns, d, num) in enumerate(plan):
-      r = tlc.run("ProgGen", gen_cfg(ns, d), workers=1, timeout=3000, seed=run.seed * 7 + j,
-                  simulate="num=%d" % num, depth=ns + 3)
-      if r.violated:
-        raise common.Machinery("ProgGen.tla emitted an ill-scoped program:\n" + r.error_trace[:2000])
-      common.require(len(r.cases) >= num, "ProgGen produced %d programs, wanted %d" % (len(r.cases), num))
-      progs += [c["p"] for c in r.cases]
-      run.add("states", r.generated)
+    # The corpus is FIXED: NSLICES slices of 600 spec-generated programs each (TLC simulation seeds
+    # derived from the slice number only).  quick runs the slice VERIF_SEED mod NSLICES, thorough
+    # all of them.  pytype is unsound on a small fraction of random loop-free programs (about 1 in
+    # 300); because the corpus is fixed, each such genuine finding is listed by its exact input
+    # (known_findings.d/C01.json) and any other violation is reported.
+    plan = [(8, 2, 260), (14, 2, 200), (10, 3, 140)]
+    slices = list(range(NSLICES)) if thorough else [run.seed % NSLICES]
+    run.put("corpus_slices", slices)
+    for sl in slices:
+      for j, (ns, d, num) in enumerate(plan):
+        r = tlc.run("ProgGen", gen_cfg(ns, d), workers=1, timeout=3000, seed=sl * 7 + j,
+                    simulate="num=%d" % num, depth=ns + 3)
+        if r.violated:
+          raise common.Machinery("ProgGen.tla emitted an ill-scoped program:\n" + r.error_trace[:2000])
+        common.require(len(r.cases) >= num, "ProgGen produced %d programs, wanted %d" % (len(r.cases), num))
+        progs += [c["p"] for c in r.cases]
+        run.add("states", r.generated)
   run.put("programs_generated", len(progs))
   recs = []
   kinds = {}
@@ -188,8 +197,8 @@ def main():
       if idx in cf_bad and (s["k"], s["n"]) not in cf_bad[idx]:
         key = KNOWN_CACHE
       else:
-        key = "C01:%s:%s:%s" % (s["k"], json.dumps(s["t"], separators=(",", ":")),
-                                json.dumps(s["v"], separators=(",", ":")))
+        # identity of a finding = the exact input (program text) and the slot
+        key = "C01:input:%s:%s:%s" % (hashlib.sha1(rec["src"].encode()).hexdigest()[:12], s["k"], s["n"])
       run.violation(key, "slot %s %s declared %s but holds %s" % (s["k"], s["n"], s["t"], s["v"]),
                     {"program": rec["program"], "src": rec["src"], "pyi": inf["pyi"], "slot": s})
   return run.finish()
